@@ -41,6 +41,10 @@ type c12Shared struct {
 	// http-mapping on an empty body: values come from the query string
 	httpConv *j2t.BinaryConv
 	httpURL  string
+	// http-mapping over a JSON body that lacks some root fields: they are traced back to the request
+	// (query), and a call fails in the Go-side handler when a required one is found nowhere
+	httpBodyConv *j2t.BinaryConv
+	httpBodies   [][]byte
 	// protobuf converters on a shared descriptor
 	pdesc   *proto.TypeDescriptor
 	pbMsgs  [][]byte
@@ -74,10 +78,11 @@ const (
 	opHTTPEmptyBody
 	opP2J
 	opJ2P
+	opHTTPBody
 	nC12Ops
 )
 
-var c12OpNames = [nC12Ops]string{"j2t.Do", "j2t.DoInto", "t2j.Do", "t2j.DoInto", "GetByPath", "Children", "Load+Marshal", "MarshalTo", "desc-lookups", "Interface", "t2j.Do(ConvertException)", "j2t.Do(http-mapping, empty body)", "p2j.Do", "j2p.Do"}
+var c12OpNames = [nC12Ops]string{"j2t.Do", "j2t.DoInto", "t2j.Do", "t2j.DoInto", "GetByPath", "Children", "Load+Marshal", "MarshalTo", "desc-lookups", "Interface", "t2j.Do(ConvertException)", "j2t.Do(http-mapping, empty body)", "p2j.Do", "j2p.Do", "j2t.Do(http-mapping, body with missing root fields)"}
 
 type c12Result struct {
 	Out []byte
@@ -201,6 +206,15 @@ func (s *c12Shared) exec(op *c12Op) (res c12Result) {
 			break
 		}
 		out, err := s.httpConv.Do(context.WithValue(ctx, conv.CtxKeyHTTPRequest, req), s.desc, []byte{})
+		res.Out = out
+		seterr(err)
+	case opHTTPBody:
+		req, err := dhttp.NewHTTPRequestFromUrl("POST", s.httpURL, nil)
+		if err != nil {
+			res.Err = "request:" + err.Error()
+			break
+		}
+		out, err := s.httpBodyConv.Do(context.WithValue(ctx, conv.CtxKeyHTTPRequest, req), s.desc, input(s.httpBodies[op.Doc]))
 		res.Out = out
 		seterr(err)
 	case opP2J:
@@ -456,6 +470,8 @@ func runC12(w *W) {
 	// http-mapping converter + a URL whose query populates the annotated fields
 	hc := j2t.NewBinaryConv(conv.Options{EnableHttpMapping: true, WriteDefaultField: t.Chance(1, 2, "opt.http.wd"), WriteRequireField: true})
 	sh.httpConv = &hc
+	hbc := j2t.NewBinaryConv(conv.Options{EnableHttpMapping: true, ReadHttpValueFallback: true, TracebackRequredOrRootFields: true, WriteDefaultField: t.Chance(1, 2, "opt.httpbody.wd")})
+	sh.httpBodyConv = &hbc
 	sh.httpURL = "http://sim.local/p?x=1"
 	for _, st := range sch.Structs {
 		for _, f := range st.Fields {
@@ -492,6 +508,16 @@ func runC12(w *W) {
 		sh.jsons = append(sh.jsons, jb.B)
 		sh.msgs = append(sh.msgs, mb.B)
 		sh.vals = append(sh.vals, val)
+		// the http body: the same document without some of its root members
+		hv := &TVal{T: val.T}
+		for _, fv := range val.Fields {
+			if !t.Chance(2, 5, "httpbody.drop") {
+				hv.Fields = append(hv.Fields, fv)
+			}
+		}
+		hb := w.AllocData((&jsonStyle{t: t}).render(hv), simrt.PlaceReadOnly)
+		roBufs = append(roBufs, hb)
+		sh.httpBodies = append(sh.httpBodies, hb.B)
 		w.Logf("doc %d: json %d bytes %s | thrift %d bytes %x", d, len(js), clip(js, 200), len(msg), clipb(msg, 100))
 	}
 	for _, f := range sch.Root.St.Fields {
@@ -659,6 +685,8 @@ func drawC12Op(w *W, sh *c12Shared) *c12Op {
 	switch op.Kind {
 	case opJ2TDo, opJ2TDoInto:
 		in = sh.jsons[op.Doc]
+	case opHTTPBody:
+		in = sh.httpBodies[op.Doc]
 	case opP2J:
 		if len(sh.pbMsgs) > 0 {
 			in = sh.pbMsgs[op.Doc%len(sh.pbMsgs)]
